@@ -1,197 +1,2 @@
-(* GENERATED by harness/cmd/genconsts from the current /repo source. Do not edit. *)
-From Coq Require Import List ZArith NArith.
-From Coq.Strings Require Import Byte.
-Import ListNotations.
-
-(* txtar/archive.go translated by harness/go2coq (table: harness/cmd/genconsts/gen_txtar_src.go).
-   Functions: src_isMarker, src_fixNL, src_findFileMarker, src_Parse, src_NeedsQuote, src_Quote, src_Unquote.  Vocabulary: Lib/GoSem.v; struct types: Txtar/Txtar.v. *)
-From Coq Require Import Bool.
-From GI Require Import Lib.Bytes Lib.GoSem Txtar.Txtar.
-Import GoNotations.
-Local Open Scope go_scope.
-
-(* var marker *)
-Definition src_marker : bytes := [x2d; x2d; x20].
-
-(* var markerEnd *)
-Definition src_markerEnd : bytes := [x20; x2d; x2d].
-
-(* var newlineMarker *)
-Definition src_newlineMarker : bytes := [x0a; x2d; x2d; x20].
-
-(* func isMarker *)
-Definition src_isMarker (v_data : bytes)
-  : res (bytes * bytes)%type :=
-  let v_name : bytes := [] in
-  let v_after : bytes := [] in
-  if (negb (go_bytes_HasPrefix v_data src_marker)) then
-    Ok ([], [])
-  else
-  let v_i : Z := (go_bytes_IndexByte v_data x0a) in
-  '(v_data, v_after) <- (if (v_i >=? 0%Z)%Z then
-    t1 <- go_slice v_data 0%Z v_i ;;
-    t2 <- go_slice v_data (v_i + 1%Z)%Z (len v_data) ;;
-    let '(v_data, v_after) := (t1, t2) in
-    Ok (v_data, v_after)
-  else
-    Ok (v_data, v_after)
-  ) ;;
-  t3 <- go_index v_data ((len v_data) - 1%Z)%Z ;;
-  v_data <- (if (beq t3 x0d) then
-    t4 <- go_slice v_data 0%Z ((len v_data) - 1%Z)%Z ;;
-    let v_data : bytes := t4 in
-    Ok v_data
-  else
-    Ok v_data
-  ) ;;
-  if ((negb (go_bytes_HasSuffix v_data src_markerEnd)) || ((len v_data) <? ((len src_marker) + (len src_markerEnd))%Z)%Z) then
-    Ok ([], [])
-  else
-  t5 <- go_slice v_data (len src_marker) ((len v_data) - (len src_markerEnd))%Z ;;
-  Ok ((go_strings_TrimSpace t5), v_after).
-
-(* func fixNL *)
-Definition src_fixNL (v_data : bytes)
-  : res bytes :=
-  t2 <- (if ((len v_data) =? 0%Z)%Z then Ok true else (t1 <- go_index v_data ((len v_data) - 1%Z)%Z ;; Ok (beq t1 x0a))) ;;
-  if t2 then
-    Ok v_data
-  else
-  t3 <- go_make_bytes ((len v_data) + 1%Z)%Z ;;
-  let v_d : bytes := t3 in
-  let v_d : bytes := go_copy v_d v_data in
-  v_d <- go_store v_d (len v_data) x0a ;;
-  Ok v_d.
-
-(* func findFileMarker: for-loop 1 *)
-Fixpoint src_findFileMarker_loop1 {L : Type} (fuel n : nat) (v_data : bytes) (v_name : bytes) (v_after : bytes) (v_i : Z) {struct n}
-  : res (outcome (bytes * bytes * Z)%type L (bytes * bytes * bytes)%type) :=
-  match n with
-  | O => OutOfFuel
-  | S n' =>
-      bindL (
-        t1 <- go_slice v_data v_i (len v_data) ;;
-        '(t3, t4) <- src_isMarker t1 ;;
-        let v_name : bytes := t3 in
-        let v_after : bytes := t4 in
-        if (negb (bytes_eqb v_name [])) then
-          t5 <- go_slice v_data 0%Z v_i ;;
-          Ok (Return (t5, v_name, v_after))
-        else
-        t6 <- go_slice v_data v_i (len v_data) ;;
-        let v_j : Z := (go_bytes_Index t6 src_newlineMarker) in
-        if (v_j <? 0%Z)%Z then
-          t7 <- src_fixNL v_data ;;
-          Ok (Return (t7, [], []))
-        else
-        let v_i : Z := (v_i + (v_j + 1%Z)%Z)%Z in
-        Ok (Normal (v_name, v_after, v_i))
-      ) (fun '(v_name, v_after, v_i) =>
-      src_findFileMarker_loop1 fuel n' v_data v_name v_after v_i)
-  end.
-
-(* func findFileMarker *)
-Definition src_findFileMarker (fuel : nat) (v_data : bytes)
-  : res (bytes * bytes * bytes)%type :=
-  let v_before : bytes := [] in
-  let v_name : bytes := [] in
-  let v_after : bytes := [] in
-  let v_i : Z := 0%Z in
-  bindT (src_findFileMarker_loop1 fuel fuel v_data v_name v_after v_i) (fun '(v_name, v_after, v_i) =>
-  unreachable).
-
-(* func Parse: for-loop 1 *)
-Fixpoint src_Parse_loop1 {L : Type} (fuel n : nat) (v_data : bytes) (v_a : archive) (v_name : bytes) {struct n}
-  : res (outcome (bytes * archive * bytes)%type L archive) :=
-  match n with
-  | O => OutOfFuel
-  | S n' =>
-    if (negb (bytes_eqb v_name [])) then
-      bindL (
-        let v_f : (bytes * bytes)%type := (pair v_name []) in
-        '(t6, t7, t8) <- src_findFileMarker fuel v_data ;;
-        let v_f : (bytes * bytes)%type := pair (fst v_f) t6 in
-        let v_name : bytes := t7 in
-        let v_data : bytes := t8 in
-        let v_a : archive := Build_archive (comment v_a) (go_append (files v_a) [v_f]) in
-        Ok (Normal (v_data, v_a, v_name))
-      ) (fun '(v_data, v_a, v_name) =>
-      src_Parse_loop1 fuel n' v_data v_a v_name)
-    else
-      Ok (Normal (v_data, v_a, v_name))
-  end.
-
-(* func Parse *)
-Definition src_Parse (fuel : nat) (v_data : bytes)
-  : res archive :=
-  let v_a : archive := (Build_archive [] []) in
-  let v_name : bytes := [] in
-  '(t2, t3, t4) <- src_findFileMarker fuel v_data ;;
-  let v_a : archive := Build_archive t2 (files v_a) in
-  let v_name : bytes := t3 in
-  let v_data : bytes := t4 in
-  bindT (src_Parse_loop1 fuel fuel v_data v_a v_name) (fun '(v_data, v_a, v_name) =>
-  Ok v_a).
-
-(* func NeedsQuote *)
-Definition src_NeedsQuote (fuel : nat) (v_data : bytes)
-  : res bool :=
-  '(_, t2, _) <- src_findFileMarker fuel v_data ;;
-  let v_name : bytes := t2 in
-  Ok (negb (bytes_eqb v_name [])).
-
-(* func Quote: range loop 1 *)
-Fixpoint src_Quote_loop1 {L : Type} (l : list byte) (v_nd : bytes) (v_prev : byte) {struct l}
-  : res (outcome (bytes * byte)%type L (bytes * bool)%type) :=
-  match l with
-  | [] => Ok (Normal (v_nd, v_prev))
-  | v_b :: l' =>
-    bindL (
-      v_nd <- (if (beq v_prev x0a) then
-        let v_nd : bytes := (go_append v_nd [x3e]) in
-        Ok v_nd
-      else
-        Ok v_nd
-      ) ;;
-      let v_nd : bytes := (go_append v_nd [v_b]) in
-      let v_prev : byte := v_b in
-      Ok (Normal (v_nd, v_prev))
-    ) (fun '(v_nd, v_prev) =>
-    src_Quote_loop1 l' v_nd v_prev)
-  end.
-
-(* func Quote *)
-Definition src_Quote (v_data : bytes)
-  : res (bytes * bool)%type :=
-  if ((len v_data) =? 0%Z)%Z then
-    Ok ([], false)
-  else
-  t1 <- go_index v_data ((len v_data) - 1%Z)%Z ;;
-  if (negb (beq t1 x0a)) then
-    Ok ([], true)
-  else
-  if (negb (go_utf8_Valid v_data)) then
-    Ok ([], true)
-  else
-  let v_nd : bytes := [] in
-  let v_prev : byte := x0a in
-  bindT (src_Quote_loop1 v_data v_nd v_prev) (fun '(v_nd, v_prev) =>
-  Ok (v_nd, false)).
-
-(* func Unquote *)
-Definition src_Unquote (v_data : bytes)
-  : res (bytes * bool)%type :=
-  if ((len v_data) =? 0%Z)%Z then
-    Ok ([], false)
-  else
-  t1 <- go_index v_data 0%Z ;;
-  t3 <- (if (negb (beq t1 x3e)) then Ok true else (t2 <- go_index v_data ((len v_data) - 1%Z)%Z ;; Ok (negb (beq t2 x0a)))) ;;
-  if t3 then
-    Ok ([], true)
-  else
-  t4 <- go_bytes_Replace v_data [x0a; x3e] [x0a] (-1)%Z ;;
-  let v_data : bytes := t4 in
-  t5 <- go_bytes_TrimPrefix v_data [x3e] ;;
-  let v_data : bytes := t5 in
-  Ok (v_data, false).
-
+(* NOT GENERATED: harness/cmd/genconsts could not translate the current source:
+   txtar/archive.go: txtar/archive.go:132:2: the append target is also assigned something that may share its backing array *)
